@@ -255,7 +255,7 @@ def selftest(ctx, trace, kd):
 
 def run(ctx):
     kd = known(ctx)
-    lib.build([DRV])
+    ctx.stage("build", wall_s=round(lib.build([DRV]), 1))     # includes waiting for cargo's lock on the shared target dir
     if ctx.replay:
         return replay(ctx, kd)
     totals, seen = {}, set()
